@@ -28,6 +28,7 @@ import QV.Proofs.WriterJustified
 import QV.Proofs.WriterAbsStep
 import QV.Proofs.WriterWalk
 import QV.Proofs.WriterSegment
+import QV.Proofs.WriterCheckSession
 
 namespace QV.C12
 open QV QV.Writer QV.ServerSafety
@@ -54,14 +55,18 @@ open QV QV.Writer QV.ServerSafety
   equal to the names given up to ASCII case), `C12_refinement_without_standard_mode` (sessions that
   never use `Standard` mode: the decoded message *equals* the abstract message; for `Disabled` mode
   alone also `C12_disabled_refinement`, proved from the octets), `C12_header_all_sequences` (what
-  the header octets are). What separates these theorems from `C12_full` as a single statement: the
-  executable `checkSession` walks the reported statuses (justifying every failure), compares each
-  item with the mode in effect when it was written (that comparison is `C12_refinement_item_modes`)
-  and runs the pointer audit (that is C13, `C13_holds`), and (d) is stated for finished messages of at most 65535 octets, i.e. for sessions
-  whose limits are at most 65535 (`C12_refinement_all_modes_dns_limits`; RDLENGTH is a 16-bit
-  field, the writer itself accepts larger buffers). The driver evaluates `checkSession`
-  itself on 100 % of the generated sessions (model column and, on the implementation's octets, spec
-  column of `waudit`). -/
+  the header octets are). What separates these theorems from `C12_full` as a single statement
+  (see the end of this file): `C12_full_one_segment_modulo_audit_partial` proves `checkSession … =
+  "ok"` on what `Driver.runModel` observes, for sessions without `clear_rrs`, from one premise — the
+  pointer audit `auditPointers` of the decoded message (C13 proves the audit's conditions on the
+  writer's pointer log; that the pointers the decoder finds are exactly the logged ones is not
+  proved). Everything else `checkSession` does is discharged: the walk over the status strings with
+  `absOk` and `justified` (`C12_failures_justified`), the getters, header, questions and records by
+  item mode, OPT, TSIG, size. Open: the audit premise, and sessions with `clear_rrs` (the walk then
+  checks each segment against the message finished before the call). (d) is stated for limits of at
+  most 65535 (RDLENGTH is a 16-bit field; the writer itself accepts larger buffers). The driver
+  evaluates `checkSession` itself on 100 % of the generated sessions (model column and, on the
+  implementation's octets, spec column of `waudit`). -/
 
 /- The statement as first written (kept for the record):
 
@@ -83,12 +88,17 @@ open QV QV.Writer QV.ServerSafety
    that every call is typed (`ApiTyped`: `Op.Typed`, the `u16` bounds of `set_edns` / `set_tsig`, and
    non-empty RRsets). It also needs the limits to be at most 65535 (the largest DNS message; RDLENGTH
    and the TCP length prefix are 16-bit): (d) is proved for finished messages of at most 65535
-   octets. The driver generates typed calls and limits below 65536 only. -/
+   octets. And the MAC handed over must have exactly the output size of the algorithm when the TSIG mode
+   signs (`MacLenOK` only bounds it; the specification's `tsigRecordOk` compares the RDATA length with
+   the algorithm's size). The driver generates typed calls, limits below 65536 and MACs of the right
+   size only. -/
 def C12_full : Prop :=
   ∀ (buf : Bytes) (limit : Nat) (mode : CMode) (s : State) (ops : List Op) (mac : Option (List UInt8)),
     Writer.new buf limit = .ok s → Respects { w := { s with mode := mode } } ops →
     (∀ op ∈ ops, ApiTyped op) → limit ≤ 65535 → (∀ v, Op.setLimit v ∈ ops → v ≤ 65535) →
     MacLenOK (fun _ _ => mac.getD []) →
+    (∀ ts, (run { w := { s with mode := mode } } ops).1.w.tsig = some ts → isUnsigned ts.mode = false →
+      (mac.getD []).length = (toATsig ts).macLen) →
     let r := Driver.runModel { w := { s with mode := mode } } ops mac true
     ∃ m, r.msg = some m ∧
       Spec.Message.checkSession buf.size limit (Driver.toSpecMode mode) (ops.map Driver.toSpecOp)
@@ -565,10 +575,11 @@ theorem C12_abstract_state_follows (ss : Session) (op : Op) (a a' : Spec.Message
 
 /-! ### the walk of `checkSession`, for one segment
 
-  `C12_walk_reaches_final_check_partial` (restriction: sessions without `clear_rrs` and `getters`,
-  non-empty RRsets, limits at most 65535): from a fresh writer, `Spec.Message.walk` — run with the
+  `C12_walk_reaches_final_check_partial` (restriction: sessions without `clear_rrs`, non-empty
+  RRsets, limits at most 65535): from a fresh writer, `Spec.Message.walk` — run with the
   specification's initial abstract state on the calls of the session (`toSpecOp`), the statuses the
-  model reports (`statusStr`, then `"ok"` for `finish`), the finished message and its decoding —
+  model reports (`obs`: `statusStr` of every call, for `getters` what they report — equal to what
+  the specification expects, `gettersStr_eq` —, then `"ok"` for `finish`), the finished message and its decoding —
   never rejects: every successful call is accepted by `absOk` (whose `cur`, read off the decoded
   extents, is the cursor: `extents_prefix`), every failed call is `justified`; it equals the final
   `checkSegment` in an abstract state `aF` that describes the final writer state (`AbsNum`) and whose
@@ -577,13 +588,12 @@ theorem C12_abstract_state_follows (ss : Session) (op : Op) (a a' : Spec.Message
   `C12_refinement_item_modes` compares the decoded message with).
   What remains of `C12_full`: the rest of `checkSegment aF d …` (name equality by mode and
   records — `C12_refinement_item_modes` in the decoder's vocabulary —, TSIG record, size —
-  `C12_limit_all_sequences` —, pointer audit — C13), `getters`, and the segments ended by
-  `clear_rrs`. -/
+  `C12_limit_all_sequences` —, pointer audit — C13), and the segments ended by `clear_rrs`. -/
 theorem C12_walk_reaches_final_check_partial (macFn : Tsig → List UInt8 → List UInt8) (hmac : MacLenOK macFn)
     (buf : Bytes) (limit : Nat) (s0 : State) (hnew : Writer.new buf limit = .ok s0) (hlim : limit ≤ 65535)
     (mode : CMode) (ops : List Op) (ht : ∀ op ∈ ops, op.Typed) (hb : ∀ op ∈ ops, ApiBounds op)
     (hr : Respects { w := { s0 with mode := mode } } ops) (hv : ∀ v, Op.setLimit v ∈ ops → v ≤ 65535)
-    (hno : ∀ op ∈ ops, op ≠ .clearRrs ∧ op ≠ .getters ∧ NonEmptySet op) (mac' : Option (List UInt8)) :
+    (hno : ∀ op ∈ ops, op ≠ .clearRrs ∧ NonEmptySet op) (mac' : Option (List UInt8)) :
     ∃ m mac d aF, finish (run { w := { s0 with mode := mode } } ops).1.w macFn = .ok (m, mac) ∧
       Spec.Message.specDecodeMsg m = some d ∧ AbsNum (run { w := { s0 with mode := mode } } ops).1.w aF ∧
       aF.hdr = d.msg.header ∧ aF.hdr.z = 0 ∧
@@ -593,13 +603,13 @@ theorem C12_walk_reaches_final_check_partial (macFn : Tsig → List UInt8 → Li
       Spec.Message.walk false
           { mode := Driver.toSpecMode mode, buflen := buf.size, limit := min limit buf.size }
           (ops.map Driver.toSpecOp)
-          ((run { w := { s0 with mode := mode } } ops).2.map Driver.statusStr ++ ["ok"]) [m] (some d) mac' =
+          (obs { w := { s0 with mode := mode } } ops ++ ["ok"]) [m] (some d) mac' =
         Spec.Message.checkSegment false aF d m.size mac' :=
   walk_from_new macFn hmac buf limit s0 hnew hlim mode ops ht hb hr hv hno mac'
 
 /-! ### the clauses of the final check, in the specification's own vocabulary
 
-  `C12_final_check_clauses_partial` (same restriction as the walk: no `clear_rrs`, no `getters`): the
+  `C12_final_check_clauses_partial` (same restriction as the walk: no `clear_rrs`): the
   walk equals `checkSegment false aF d m.size mac'`, and for this `aF` and `d` the clauses of
   `checkSegment` hold as the executable specification writes them: the header equals the decoded
   header with Z = 0; the question count; `listEq` of `nameEq`/type/class over the questions zipped
@@ -615,15 +625,17 @@ theorem C12_final_check_clauses_partial (macFn : Tsig → List UInt8 → List UI
     (buf : Bytes) (limit : Nat) (s0 : State) (hnew : Writer.new buf limit = .ok s0) (hlim : limit ≤ 65535)
     (mode : CMode) (ops : List Op) (ht : ∀ op ∈ ops, op.Typed) (hb : ∀ op ∈ ops, ApiBounds op)
     (hr : Respects { w := { s0 with mode := mode } } ops) (hv : ∀ v, Op.setLimit v ∈ ops → v ≤ 65535)
-    (hno : ∀ op ∈ ops, op ≠ .clearRrs ∧ op ≠ .getters ∧ NonEmptySet op) (mac' : Option (List UInt8)) :
+    (hno : ∀ op ∈ ops, op ≠ .clearRrs ∧ NonEmptySet op) (mac' : Option (List UInt8)) :
     ∃ m mac d aF, finish (run { w := { s0 with mode := mode } } ops).1.w macFn = .ok (m, mac) ∧
       Spec.Message.specDecodeMsg m = some d ∧
       Spec.Message.walk false
           { mode := Driver.toSpecMode mode, buflen := buf.size, limit := min limit buf.size }
           (ops.map Driver.toSpecOp)
-          ((run { w := { s0 with mode := mode } } ops).2.map Driver.statusStr ++ ["ok"]) [m] (some d) mac' =
+          (obs { w := { s0 with mode := mode } } ops ++ ["ok"]) [m] (some d) mac' =
         Spec.Message.checkSegment false aF d m.size mac' ∧
       aF.hdr = d.msg.header ∧ aF.hdr.z = 0 ∧ m.size ≤ aF.limit ∧
+      AbsCfg (run { w := { s0 with mode := mode } } ops).1.w aF ∧
+      aF.mode = Driver.toSpecMode (run { w := { s0 with mode := mode } } ops).1.w.mode ∧
       (let modes := aF.itemModes.reverse
        let qs := aF.questions.reverse
        let nq := qs.length
@@ -640,6 +652,62 @@ theorem C12_final_check_clauses_partial (macFn : Tsig → List UInt8 → List UI
          All2 (RecordIs ((run { w := { s0 with mode := mode } } ops).1.w.mode ≠ .standard))
            (tsigRecs (run { w := { s0 with mode := mode } } ops).1.w.tsig mac) tl) :=
   segment_from_new macFn hmac buf limit s0 hnew hlim mode ops ht hb hr hv hno mac'
+
+/-! ### the walk of a segment reduces to the pointer audit
+
+  `C12_segment_reduces_to_pointer_audit_partial` (no `clear_rrs`; the MAC has exactly the
+  size the specification expects — `hml` —, and the MAC handed to the specification is the one
+  `finish` returned): everything `walk` and `checkSegment` check holds, including the Bool form of
+  the TSIG check (`tsigRecordOk_of`), so the whole walk *equals* `auditPointers d modes mode`, the
+  pointer audit of C13 on the decoded message. -/
+theorem C12_segment_reduces_to_pointer_audit_partial (macFn : Tsig → List UInt8 → List UInt8)
+    (hmac : MacLenOK macFn) (buf : Bytes) (limit : Nat) (s0 : State) (hnew : Writer.new buf limit = .ok s0)
+    (hlim : limit ≤ 65535) (mode : CMode) (ops : List Op) (ht : ∀ op ∈ ops, op.Typed)
+    (hb : ∀ op ∈ ops, ApiBounds op) (hr : Respects { w := { s0 with mode := mode } } ops)
+    (hv : ∀ v, Op.setLimit v ∈ ops → v ≤ 65535)
+    (hno : ∀ op ∈ ops, op ≠ .clearRrs ∧ NonEmptySet op)
+    (hml : ∀ m mac ts, finish (run { w := { s0 with mode := mode } } ops).1.w macFn = .ok (m, mac) →
+      (run { w := { s0 with mode := mode } } ops).1.w.tsig = some ts →
+      (mac.getD []).length = (toATsig ts).macLen)
+    (mac' : Option (List UInt8))
+    (hmac' : ∀ m mac, finish (run { w := { s0 with mode := mode } } ops).1.w macFn = .ok (m, mac) →
+      mac' = none ∨ mac' = some (mac.getD [])) :
+    ∃ (m : Bytes) (mac : Option (List UInt8)) (d : Spec.Message.Decoded) (aF : Spec.Message.AState),
+      finish (run { w := { s0 with mode := mode } } ops).1.w macFn = .ok (m, mac) ∧
+      Spec.Message.specDecodeMsg m = some d ∧
+      Spec.Message.walk false
+          { mode := Driver.toSpecMode mode, buflen := buf.size, limit := min limit buf.size }
+          (ops.map Driver.toSpecOp)
+          (obs { w := { s0 with mode := mode } } ops ++ ["ok"]) [m] (some d) mac' =
+        Spec.Message.auditPointers d aF.itemModes.reverse aF.mode :=
+  segment_reduces_to_audit macFn hmac buf limit s0 hnew hlim mode ops ht hb hr hv hno hml mac' hmac'
+
+/-! ### `C12_full`, for one segment, up to the pointer audit
+
+  `C12_full_one_segment_modulo_audit_partial`: the statement of `C12_full` itself — `checkSession` on
+  what `Driver.runModel` observes — for sessions without `clear_rrs`, with one
+  premise left: the pointer audit of the decoded message (`auditPointers`, C13 in the decoder's
+  vocabulary). Everything else `checkSession` checks is proved: no call panics, `finish` succeeds,
+  the message decodes, the walk accepts every call (`absOk` for successes, `justified` for
+  failures, the getters report what the specification expects), header, questions and records compared in the mode of each item, the OPT and the TSIG
+  record, the size limit. (`hsz`: for a signing TSIG mode the MAC given has the algorithm's output
+  size — `MacLenOK` alone only bounds it.) -/
+theorem C12_full_one_segment_modulo_audit_partial (buf : Bytes) (limit : Nat) (mode : CMode) (s : State)
+    (ops : List Op) (mac : Option (List UInt8)) (hnew : Writer.new buf limit = .ok s)
+    (hr : Respects { w := { s with mode := mode } } ops) (ht : ∀ op ∈ ops, ApiTyped op) (hlim : limit ≤ 65535)
+    (hv : ∀ v, Op.setLimit v ∈ ops → v ≤ 65535) (hmac : MacLenOK (fun _ _ => mac.getD []))
+    (hno : ∀ op ∈ ops, op ≠ .clearRrs)
+    (hsz : ∀ ts, (run { w := { s with mode := mode } } ops).1.w.tsig = some ts → isUnsigned ts.mode = false →
+      (mac.getD []).length = (toATsig ts).macLen) :
+    ∃ (m : Bytes) (d : Spec.Message.Decoded) (aF : Spec.Message.AState),
+      (Driver.runModel { w := { s with mode := mode } } ops mac true).msg = some m ∧
+      Spec.Message.specDecodeMsg m = some d ∧
+      (Spec.Message.auditPointers d aF.itemModes.reverse aF.mode = .ok () →
+        Spec.Message.checkSession buf.size limit (Driver.toSpecMode mode) (ops.map Driver.toSpecOp)
+          (Driver.runModel { w := { s with mode := mode } } ops mac true).statuses
+          ((Driver.runModel { w := { s with mode := mode } } ops mac true).pre ++ [m])
+          (Driver.runModel { w := { s with mode := mode } } ops mac true).mac = "ok") :=
+  checkSession_one_segment buf limit mode s ops mac hnew hr ht hlim hv hmac hno hsz
 
 /-! non-vacuity: a `CasePreserving` session that respects the contract, whose calls all succeed, and
     that emits two pointers (owner = QNAME; the CNAME target shares a suffix with it) — all
